@@ -139,26 +139,26 @@ ENGINES = [
 
 # additions made while the checks were strengthened against seeded changes (DESIGN.md §8.5)
 EXTRA = {
- "C01": "Also: Remove/re-Add tail steps, intermediate Builds of the same collection, cross-scope concurrent first resolutions.",
- "C02": "Also: failing first constructions inside the window, cross-scope rounds, and initializers registered under a name (resolved by key and as a dependency, sequentially and from 2-8 goroutines) - still one run per scope.",
+ "C01": "Also: Remove/re-Add tail steps, intermediate Builds of the same collection, cross-scope concurrent first resolutions. An argument slot bound to a registered singleton that receives no instance (fault-free histories) is a finding.",
+ "C02": "Also: failing first constructions inside the window, cross-scope rounds, and initializers registered under a name (resolved by key and as a dependency, sequentially and from 2-8 goroutines) - still one run per scope. Multi-output constructors whose retry returns one object for two outputs; multi-output constructors with a grouped first output in the window workload.",
  "C03": "Also: identity-served-twice across groups/keys, concurrent sections across scopes.",
  "C04": "Also: In structs with embedded structs (promoted fields stay untouched), value-equal instances told apart by pointer, collections used, extended and built again (optional dependency / group member registered after the first Build).",
- "C05": "Also: verdict queries between incremental adds and after every rejected add (stale caches).",
- "C06": "Also: intermediate Builds; sort-vs-mutation concurrency on the graph.",
- "C07": "Also: directed multi-identity + Remove specs, intermediate Builds, optional / alias / group dependency forms.",
- "C08": "Also: Remove of the first sibling of a multi-output registration, required keyed dependencies on the built-in types (never satisfiable).",
- "C09": "Also: shared-code constructors under overlap, provider.Close overlapping CreateScope on a still-open scope, worker watchdog for operations that never return.",
+ "C05": "Also: verdict queries between incremental adds and after every rejected add (stale caches). Slot catalogue (core/slots.go): every unusual declaration form (two fields of one Go type, embedded fields, name+group fields, repeated parameters, ...) x every dependency slot, valid and with the cycle closed through that slot; Remove + re-Add by a constructor that depends on a remaining output of the same Add call.",
+ "C06": "Also: intermediate Builds; sort-vs-mutation concurrency on the graph. Sets built once while valid, then a required dependency removed: same verdict as a fresh collection with the same registrations.",
+ "C07": "Also: directed multi-identity + Remove specs, intermediate Builds, optional / alias / group dependency forms. Slot catalogue: every unusual declaration form x every slot, valid and captive through that slot.",
+ "C08": "Also: Remove of the first sibling of a multi-output registration, required keyed dependencies on the built-in types (never satisfiable). Slot catalogue (valid / that slot's provider missing); a singleton constructor that opens a scope through the injected Provider during Build while a scope initializer takes a singleton that does not exist yet.",
+ "C09": "Also: shared-code constructors under overlap, provider.Close overlapping CreateScope on a still-open scope, worker watchdog for operations that never return. A fixed stress spec of multi-output constructors (grouped first output, keyed multi-return) in every lifetime.",
  "C10": "Also: BuildWithContext cancelled from inside each Build-time invocation, aliases / multi-alias registrations, value-equal instances (tracked by pointer), disposables handed out by value (handle 0, zero-valued struct), Close overlapping in-flight constructions.",
- "C11": "Also: close-vs-close overlaps (leaf Close or context watcher parked inside each disposable Close while parent / grandparent / provider is closed; top-level scope being closed vs provider.Close) and the first-resolution race.",
- "C12": "Also: derived-context children, slow Close hooks, the close-is-complete clause for the last-returning call of a group of overlapping Closes, graceful-shutdown plans.",
- "C13": "Also: ancestor Close overlapping an in-flight Close of a descendant (probe at the return of the ancestor's Close), descendant-survives-close after overlapping CreateScope.",
+ "C11": "Also: close-vs-close overlaps (leaf Close or context watcher parked inside each disposable Close while parent / grandparent / provider is closed; top-level scope being closed vs provider.Close) and the first-resolution race. CreateScope overlapping the Close of its parent / an ancestor at every callback and internal yield point, judged by the order rules.",
+ "C12": "Also: derived-context children, slow Close hooks, the close-is-complete clause for the last-returning call of a group of overlapping Closes, graceful-shutdown plans. Scopes whose context derives from the provider's root context (children of the root scope, provider scopes on the injected root context) with failing Close methods.",
+ "C13": "Also: ancestor Close overlapping an in-flight Close of a descendant (probe at the return of the ancestor's Close), descendant-survives-close after overlapping CreateScope. Two or three more resolvers of the same scoped service queued behind the in-flight construction when the Close arrives.",
  "C14": "Also: Close-error variants, contexts already done at creation, and a create-vs-close race workload (a parent's Close racing the creation of its children under contention on the provider's bookkeeping; weak-pointer oracle with the provider still open).",
- "C15": "Also: constructor error values of several shapes (stateless zero-valued struct / int errors, wrapped, chains containing godi's own BuildError), constructors with concrete error result types, concurrent waiters behind a failing construction.",
+ "C15": "Also: constructor error values of several shapes (stateless zero-valued struct / int errors, wrapped, chains containing godi's own BuildError), constructors with concrete error result types, concurrent waiters behind a failing construction. BuildWithContext cancelled inside the first / middle / last constructor of the Build: no panic and nothing constructed stays undisposed.",
  "C16": "Also: application-scope request contexts, a second differently configured ScopeMiddleware/Handle instance per case, and the scope-closed-at-unwind clause (evaluated at the moment the request leaves the middleware chain, aborts included).",
  "C17": "Also: result-object fields with both name and group (must be rejected), RemoveKeyed with nil / empty-string / non-string keys.",
- "C18": "Also: reserved types in every derived registration form (As, multi-return, result-object fields incl. grouped), concurrent sections, nil-context children inheriting cancellation and deadline.",
+ "C18": "Also: reserved types in every derived registration form (As, multi-return, result-object fields incl. grouped), concurrent sections, nil-context children inheriting cancellation and deadline. Built-in injectables requested through fields tagged optional.",
  "C19": "Also: deferred adds in batches (removes / clears while pending, one completing DetectCycles), concurrent sort-vs-mutation.",
- "C20": "Also: caller slice reuse, RemoveKeyed key values that are not names, the same module tree applied to several fresh collections concurrently.",
+ "C20": "Also: caller slice reuse, RemoveKeyed key values that are not names, the same module tree applied to several fresh collections concurrently. The ModuleError chain is also walked with Unwrap; grouping closures that annotate their children's error with their own error type (annotation must stay reachable).",
 }
 
 def main():
